@@ -15,7 +15,11 @@ EXTRA = {'C02-viterbi-star-unit-cycle': ['C02', 'C08', 'C09'], 'C09-viterbi-star
          'C12-add-rule-dedup-by-value': ['C12', 'C16'], 'C11-unsorted-unsqueeze-index': ['C11', 'C02', 'C07'], 'C11-stack-unify-in-assert': ['C11', 'C06'],
          'C09-stale-diagonal-set': ['C09', 'C02'], 'C03-multi-mv-transpose-before-flatten': ['C03', 'C09'], 'C01-viterbi-zeros-not-overridden': ['C01', 'C08'],
          'C13-allclose-freshen-discarded': ['C13', 'C06'], 'C13-equal-numel-shape-guard': ['C13', 'C06'], 'C19-nonterminal-graph-memo-by-counts': ['C19', 'C18'],
-         'C16-add-factor-early-label': ['C16', 'C20'], 'C08-nan-default-not-annihilated': ['C08', 'C06']}
+         'C16-add-factor-early-label': ['C16', 'C20'], 'C08-nan-default-not-annihilated': ['C08', 'C06'],
+         'C02-scc-cross-edge-lowlink': ['C02', 'C19'], 'C11-logstar-branch-swap': ['C11', 'C08'], 'C12-viterbi-trivial-flag-leak': ['C12', 'C04'],
+         'C14-add-rule-skips-equal-rule': ['C14', 'C12'], 'C06-freshen-shared-rename': ['C06', 'C07'], 'C01-unsqueeze-order-by-variable': ['C01', 'C07'],
+         'C01-einsum-freshen-tracks-vaxes': ['C01', 'C07'], 'C03-solve-skips-nonpositive-rows': ['C03', 'C09'], 'C19-sum-products-skips-ruleless-nonterminals': ['C19', 'C01'],
+         'C20-add-factor-bind-before-domain-check': ['C20', 'C16'], 'C16-factorgraph-copy-via-from-graph': ['C16', 'C18']}
 res_path = os.path.join(V, 'seeded', 'RESULTS.json')
 results = json.load(open(res_path)) if os.path.exists(res_path) else {}
 names = sorted(os.path.basename(d) for d in glob.glob(os.path.join(V, 'seeded', '*')) if os.path.isdir(d))
